@@ -251,6 +251,10 @@ def emit_rust(entries, stacks):
     for n in range(0, 5):
         w("    %d => { let $a: [_; %d] = match $v.try_into() { Ok(a) => a, Err(_) => unreachable!() }; $body }" % (n, n))
     w("    _ => return None } } }")
+    w("macro_rules! with_arrays { ($ws:expr, $n:expr, $ts:ident => $body:expr) => { match $n {")
+    for n in range(0, 5):
+        w("    %d => { let $ts: Vec<[_; %d]> = $ws.iter().map(|w| match w.clone().try_into() { Ok(a) => a, Err(_) => unreachable!() }).collect(); $body }" % (n, n))
+    w("    _ => return None } } }")
     w("")
     for n, t in enumerate(entries):
         ty = "E%d" % n
@@ -315,17 +319,24 @@ def emit_rust(entries, stacks):
             w("        })")
             w("    }")
         # reserve_form
-        w("    fn reserve_form(&mut self, form: &str, ws: &[Self::Owned]) -> Option<()> {")
+        w("    fn reserve_form(&mut self, form: &str, ws: &[Self::Owned], loose: bool) -> Option<()> {")
         w("        Some(match form {")
+        # `loose`: the same announcement through an iterator without a useful size hint (lower bound 0)
         for f in fs:
-            if f.name not in rn or f.array:
+            if f.name not in rn:
                 continue
-            if f.consuming:
-                w('            "%s" => { let xs: Vec<_> = ws.iter().map(|w| { let t = %s; %s }).collect(); self.reserve_items(xs.into_iter()) }' % (
+            if f.array:
+                # a batch of arrays of one common length: `&[T; N]` items
+                if f.view("t") != "&t":
+                    continue
+                w('            "%s" => { let n = ws.first().map_or(0, |w| w.len()); if ws.iter().any(|w| w.len() != n) { return None; }' % f.name)
+                w('                with_arrays!(ws, n, ts => if loose { self.reserve_items(ts.iter().filter(|_| true)) } else { self.reserve_items(ts.iter()) }) }')
+            elif f.consuming:
+                w('            "%s" => { let xs: Vec<_> = ws.iter().map(|w| { let t = %s; %s }).collect(); if loose { self.reserve_items(xs.into_iter().filter(|_| true)) } else { self.reserve_items(xs.into_iter()) } }' % (
                     f.name, f.tmp("w"), f.view("t")))
             else:
-                w('            "%s" => { let ts: Vec<_> = ws.iter().map(|w| %s).collect(); self.reserve_items(ts.iter().map(|t| %s)) }' % (
-                    f.name, f.tmp("w"), f.view("t")))
+                w('            "%s" => { let ts: Vec<_> = ws.iter().map(|w| %s).collect(); if loose { self.reserve_items(ts.iter().map(|t| %s).filter(|_| true)) } else { self.reserve_items(ts.iter().map(|t| %s)) } }' % (
+                    f.name, f.tmp("w"), f.view("t"), f.view("t")))
         w("            _ => return None,")
         w("        })")
         w("    }")
@@ -439,6 +450,7 @@ def main():
             names += ["item", "itemowned"]
         summ.append({"entry": str(t), "forms": names, "array_forms": arr,
                      "reserve_forms": sorted(reserve_names(t) & set(names)) if caps(t)["reserve_items"] else [],
+                     "reserve_array_forms": sorted(f.name for f in forms(t) if f.array and f.view("t") == "&t" and f.name in reserve_names(t)) if caps(t)["reserve_items"] else [],
                      "caps": caps(t), "item": supports_item(t), "ord": ord_ok(t),
                      "stacks": [str(c) for c in stack_conts(t)], "index_size": fcat.layout(index_of(t))[0]})
     jp = os.path.join(ROOT, "catalogue.json")
